@@ -34,6 +34,7 @@ def run(tier):
         extent.elem_size_rule(chk, 'C10.elem', prog, {'SRC/get_perm_c.c', 'SRC/sp_coletree.c', 'SRC/sp_preorder.c', 'SRC/colamd.c', 'SRC/mmd.c'}, cfgname, floor=10)
         n1 = ordering.get_perm_c_oracle(chk, 'C10.D4', prog, eff, cfgname)
         ordering.colamd_rules(chk, 'C10.D4', prog, cfgname)
+        ordering.downward_slot_rule(chk, 'C10.slot', prog, cfgname)
         n2 = preorder.run(chk, 'C10.D3', prog, eff, cfgname)
         if n1 < 6 or n2 < 5:
             raise AnalysisBroken('C10: %d get_perm_c leaves, %d sp_preorder leaves; floors 6, 5' % (n1, n2))
